@@ -197,6 +197,19 @@ inline void dom_types(DOMNode* n, int depth, std::vector<std::string>& out) {
     for (DOMNode* c = n->getFirstChild(); c; c = c->getNextSibling()) dom_types(c, depth + 1, out);
 }
 
+// Errors reported at the same (severity, line, column) - e.g. the "missing required attribute" messages of one start tag, which are
+// emitted in attribute-definition hash order - are an unordered set: sort each such run.
+inline void normalise_error_order(std::vector<std::string>& errs) {
+    auto key = [](const std::string& e) { size_t a = e.find('|'), b = e.find('|', a + 1), c = e.find('|', b + 1); return e.substr(0, c); };
+    size_t i = 0;
+    while (i < errs.size()) {
+        size_t j = i + 1;
+        while (j < errs.size() && key(errs[j]) == key(errs[i])) j++;
+        std::sort(errs.begin() + i, errs.begin() + j);
+        i = j;
+    }
+}
+
 struct Verdict {
     std::string text;   // complete dump (events, types, errors, exception)
     bool valid = false; // no error of any severity and no exception
@@ -250,6 +263,7 @@ inline Verdict validate(XMLGrammarPoolImpl* pool, const std::string& doc, bool i
     XV_CATCH_DOCUMENTED(r)
     V.text = join(r.d.lines);
     for (auto& l : extra) { V.text += l; V.text += '\n'; }
+    normalise_error_order(r.errors);
     for (auto& e : r.errors) { V.text += "ERR|" + e + "\n"; }
     if (!r.exc.empty()) V.text += "EXC|" + r.exc + "\n";
     V.errs = r.errs + r.fatals;
